@@ -36,6 +36,8 @@ func runC11(r *engine.Run) {
 	r.Rule("AGREE-sync", "the storage batch's Commit(sync) passes pebble.Sync exactly on the path where its sync parameter is true and pebble.NoSync where it is false (a commit the caller asked to be durable is fsynced)")
 	r.Rule("DOM-cleanfail", "in delete no store dirty = true can be followed by a recursive delete call (nodes are marked only after the delete below them returned): a failed delete (absent key) leaves its search path clean, so the next commit does not re-save unchanged nodes")
 	r.Rule("ORDER-wait", "Commit defers a closure that closes the created and deleted channels and then waits for the collector goroutines (sync.WaitGroup.Wait): the bookkeeping is complete when Commit returns")
+	r.Rule("FRESH-resolved", "see C09: a resolved reference is a private, freshly decoded node (a memoised object is served under a hash it no longer has, so the live trie and the reopened one differ)")
+	r.Rule("DEP-linkback", "see C09: the subtree returned by every recursive insert/delete/commit call is linked back on every success path (a dropped hash reference leaves a hollow branch in memory while storage has the content)")
 	r.NotDec = append(r.NotDec, "that a reopened trie is observationally identical (value-level)", "atomicity of the storage engine's batches (the atomic unit by the property's quantifier)")
 	domSave(r)
 	domCreated(r, "DOM-created")
@@ -56,6 +58,8 @@ func runC11(r *engine.Run) {
 	domMemo(r, "DOM-memo")
 	agreeDecode(r, "AGREE-decode")
 	errGuard(r, "ERR-guard", "ERR-dropped", funcsOfPkg(r, pkgWMPT), 10)
+	freshResolved(r, "FRESH-resolved")
+	depLinkBack(r, "DEP-linkback")
 }
 
 func domSave(r *engine.Run) {
